@@ -147,16 +147,13 @@ Section WithNum.
         + reflexivity.
         + reflexivity.
     Qed.
-
-    (** an empty file name opens as nothing to read: the same as an empty file *)
-    Lemma parse_opened_none : forall s, parse_opened NM cb ONone s = parse_opened NM cb (OData [] NoFault) s.
-    Proof. reflexivity. Qed.
   End Fold.
 
   (** "the file is there and can be read to the end": a regular file without a
-      read fault, or the empty name (nothing to read) *)
+      read fault (or the null device, which opens as the empty file).  Since fix F24 an
+      empty file name is a file that cannot be opened: it is no longer "nothing to read". *)
   Definition readable_as (o : opened) (data : bytes) : Prop :=
-    o = OData data NoFault \/ (o = ONone /\ data = []).
+    o = OData data NoFault.
 
   Lemma parse_opened_readable : forall {S} (cb : S -> event NM -> S * bool * option cerr) o data s,
     stops_iff_error cb -> readable_as o data ->
@@ -164,8 +161,7 @@ Section WithNum.
     = (fst (run_cb cb (csv_delivered data) s),
        match snd (run_cb cb (csv_delivered data) s) with Some x => Some x | None => scan_status data end).
   Proof.
-    intros S cb o data s SE [->|[-> ->]].
-    - apply parse_opened_run_cb. exact SE.
-    - rewrite parse_opened_none. apply parse_opened_run_cb. exact SE.
+    intros S cb o data s SE ->.
+    apply parse_opened_run_cb. exact SE.
   Qed.
 End WithNum.
